@@ -50,6 +50,8 @@ def eval_term(t, tup):
         return tup.get('imm')
     if k == 'ISARITH':
         return True          # enumerated operands are literals
+    if k in ('ISOFFSET', 'KIND', 'UNDEF'):
+        return False         # ... not pc-relative label references, and their evaluation succeeds
     if k == 'mod':
         a, b = eval_term(t[1], tup), eval_term(t[2], tup)
         if a is None or b in (None, 0):
@@ -91,14 +93,24 @@ class Rule:
         names = [f[3][1] for f in formulas if f[0] == 'cmp' and f[1] == '==' and f[2] == ('NAME',) and f[3][0] == 'const']
         self.name = names[0] if len(names) == 1 else None
 
+    def enum_formulas(self):
+        """The formulas specialised to what the enumerations range over (literal operands: the immediate is a plain expression,
+        not a pc-relative label reference, and its evaluation succeeds)."""
+        if not hasattr(self, '_enum'):
+            assign = dict(ENUM_ASSIGN)
+            if getattr(self, 'inst_isa', None) is not None:
+                assign['KIND'] = lambda term, self=self: self.inst_isa(term[1]) if term[1].startswith('inst isa ') else False
+            self._enum = [simplify(f, assign) for f in self.formulas]
+        return self._enum
+
     def holds(self, tup):
-        return all(eval_formula(f, tup) for f in self.formulas)
+        return all(eval_formula(f, tup) for f in self.enum_formulas())
 
     def imm_bounds(self):
         """Interval and divisors mentioned for IMM (to bound the enumeration)."""
         lo, hi = None, None
         pts = set()
-        for f in self.formulas:
+        for f in (self.enum_formulas() if self.key is not None else self.formulas):
             if f[0] == 'cmp' and f[2][0] in ('IMM', 'IMMC') and f[3][0] == 'const' and isinstance(f[3][1], int):
                 c = f[3][1]
                 if f[1] == '>=':
@@ -175,7 +187,21 @@ class CompRel:
                 break
         self.rules.sort(key=lambda ru: order.index(ru.key) if ru.key in order else 999)
         self.order = order
+        for ru in self.rules:
+            ru.inst_isa = self.class_oracle(ru)
         self.raw_compares = sorted(set(RAW_COMPARES))
+
+    def class_oracle(self, ru):
+        """`inst isa X` for the items a rule applies to: the class parse_item / the expansions build for the rule's mnemonic."""
+        classes = self.pa.mn_classes.get(ru.name, set()) if ru.name else set()
+
+        def isa(text):
+            cls = text[len('inst isa '):]
+            if not classes or cls not in self.facts.classes:
+                return False
+            vals = {bool(self.facts.is_subclass(c, cls)) for c in classes}
+            return vals.pop() if len(vals) == 1 else False
+        return isa
 
     # -- original-instruction side --------------------------------------------------------------------------------
     def item_fields(self, mnemonic):
@@ -217,7 +243,7 @@ class CompRel:
         doms = [self.field_domain(rule.name, a, rule) for a in attrs]
         # unary atoms prune each field's domain before the product is taken
         for idx, a in enumerate(attrs):
-            unary = [f for f in rule.formulas if mentions(f) == {a}]
+            unary = [f for f in rule.enum_formulas() if mentions(f) == {a}]
             if unary:
                 doms[idx] = [v for v in doms[idx] if all(eval_formula(f, {a: v, 'name': rule.name}) for f in unary)]
         earlier = self.rules[:self.rules.index(rule)]
@@ -348,3 +374,74 @@ def check_final_immediates(report, rel, rule):
                                                              'so the dropped offset makes the transfer land beside its label'.format(ru.key, ru.name, con.mnemonic or con.cls, why),
                                                              line=getattr(con.node, 'lineno', None)))
     report.count('immediate-dropping rules', n)
+
+
+ENUM_ASSIGN = {'ISARITH': True, 'ISOFFSET': False, 'KIND': False, 'UNDEF': False}
+
+
+def simplify(f, assign):
+    """Formula with the boolean atoms in `assign` ({term kind: bool}) replaced by constants and and/or/not folded."""
+    T, F_ = ('and', []), ('or', [])
+    k = f[0]
+    if k == 'cmp':
+        if f[1] == '==' and f[2][0] in assign and f[3] == ('const', True):
+            val = assign[f[2][0]]
+            if callable(val):
+                val = val(f[2])
+                if val is None:
+                    return f
+            return T if val else F_
+        if f[1] in ('==', '!=') and f[2][0] in ('IMM', 'IMMC', 'REG') and f[3] == ('const', None):
+            return F_ if f[1] == '==' else T          # an evaluated operand is a number, never None
+        return f
+    if k == 'not':
+        x = simplify(f[1], assign)
+        return F_ if x == T else (T if x == F_ else ('not', x))
+    if k in ('and', 'or'):
+        xs = [simplify(x, assign) for x in f[1]]
+        unit, zero = (T, F_) if k == 'and' else (F_, T)
+        if any(x == zero for x in xs):
+            return zero
+        flat = []
+        for x in xs:
+            if x == unit:
+                continue
+            if x[0] == k:
+                flat.extend(x[1])          # and-in-and / or-in-or
+            else:
+                flat.append(x)
+        if len(flat) == 1:
+            return flat[0]
+        return (k, flat)
+    return f
+
+
+def check_stable_decisions(report, rel, rule):
+    """A compression decision is taken while labels still move, and the encoder re-validates the operand at the very end.  A rule
+    may therefore look at the immediate only when its value cannot leave the rule's region any more: when it does not involve labels
+    (evaluated without the label table), or when it is a pc-relative label offset (moving labels only shrink such a distance towards
+    zero).  An absolute label-dependent immediate (%lo(sym), sym) that is inside the range now and outside it after later labels
+    moved makes the build fail under -c only."""
+    n = 0
+    for ru in rel.rules:
+        terms = [t for f in ru.formulas for t in terms_of(f)]
+        if not any(t[0] in ('IMM', 'IMMC') for t in terms):
+            continue
+        n += 1
+        kinds = lambda term, ru=ru: ru.inst_isa(term[1]) if term[1].startswith('inst isa ') else None
+        residual = [simplify(f, {'ISOFFSET': False, 'KIND': kinds}) for f in ru.formulas]
+        live = [t for f in residual for t in terms_of(f) if t[0] == 'IMM']
+        # a pc-relative label offset is a stable operand only for jumps and branches (moving labels bring the target closer, and
+        # the 32-bit form needs the same alignment); for any other instruction `!= 0` / `% 4 == 0` can stop holding
+        pcrel = oracle.RV32_FORMAT.get(ru.name) in ('J', 'B')
+        if not pcrel:
+            residual2 = [simplify(f, {'ISOFFSET': True, 'KIND': kinds}) for f in ru.formulas]
+            live = live + [t for f in residual2 for t in terms_of(f) if t[0] == 'IMM']
+        con = rel.constructions.get(ru.key)
+        node = con.node if con is not None else rel.pa.loop
+        report.check(not live, rule, "rule '{}' looks at the immediate only when it is final (label-free){}".format(ru.key, ' or the label target of the jump / branch' if pcrel else ''),
+                     lambda ru=ru, node=node: Finding(rule, 'transform_compressible', node,
+                                                      "rule '{}' tests the immediate against the live label table whatever kind of expression it is: an absolute label-dependent "
+                                                      'immediate (%lo(sym), a label used as a number) can be inside the compressed range now and outside it once later labels have moved; '
+                                                      'the compressed encoder then refuses a program that assembles without -c'.format(ru.key), line=getattr(node, 'lineno', None)))
+    report.count('rules that test the immediate', n)
